@@ -6,6 +6,14 @@ WT=/tmp/seed/$ID; OUT=$WT/out; DST=/verif/seeded/$ID
 [ -f $OUT/patch.diff ] || { echo "no patch"; exit 2; }
 cd $WT || exit 2
 export PYTHONPATH=$WT
+# bring the worktree to /repo's current HEAD with the seeded change re-applied on top
+HEAD=$(git -C /repo rev-parse HEAD)
+if [ "$(git rev-parse HEAD)" != "$HEAD" ]; then
+  git diff --quiet -- luna || git apply -R $OUT/patch.diff || { git checkout -- luna; }
+  git checkout -q --detach $HEAD || exit 2
+  git apply $OUT/patch.diff 2>/dev/null || git apply --3way $OUT/patch.diff || { echo "PATCH DOES NOT APPLY to current HEAD"; git checkout -- luna; exit 3; }
+  git reset -q 2>/dev/null
+fi
 git diff --quiet -- luna && { echo "worktree has no change applied; applying patch"; git apply $OUT/patch.diff || exit 2; }
 echo "== demo with change (expect non-zero)"; timeout 900 /venv/bin/python -W ignore out/demo.py > /tmp/seed/$ID.demo_with.log 2>&1; WITH=$?; echo "exit $WITH"; tail -3 /tmp/seed/$ID.demo_with.log
 echo "== luna tests with change (expect 93 passed)"; T=$(timeout 1800 /venv/bin/python -m pytest -q -p no:cacheprovider --timeout=900 tests 2>&1 | tail -1); echo "$T"
@@ -24,7 +32,7 @@ for C in $CHECKS; do
 done
 echo "SUMMARY $ID demo_with=$WITH demo_without=$WITHOUT tests='$T' checks=$RES"
 # archive under /verif/seeded/<id>/
-mkdir -p $DST && cp $OUT/patch.diff $OUT/demo.py $DST/ && cp $OUT/notes.md $DST/notes.md 2>/dev/null
+mkdir -p $DST && cp /tmp/seed/$ID.applied.diff $DST/patch.diff && cp $OUT/demo.py $DST/ && cp $OUT/notes.md $DST/notes.md 2>/dev/null
 NEEDS="${NEEDS:-see notes.md}"
 /venv/bin/python - "$ID" "$WITH" "$WITHOUT" "$T" "$RES" "$NEEDS" <<'PY'
 import json, sys
